@@ -27,11 +27,11 @@ type Thread struct {
 }
 
 type Event struct {
-	T   int    // thread id
-	Op  string // operation
-	A   uint64 // argument / address tag
-	R   uint64 // result
-	OK  bool
+	T  int    // thread id
+	Op string // operation
+	A  uint64 // argument / address tag
+	R  uint64 // result
+	OK bool
 }
 
 // Chooser picks an index into cands. cur is the index of the thread that ran last (-1 if
@@ -52,7 +52,8 @@ type Sched struct {
 	Trace     []Event
 	KeepTrace bool
 	Preempt   int
-	Panics    []string // panics raised by logical threads (recovered so that the run can be judged)
+	MaxSleep  time.Duration // longest duration any thread asked Sleep / After for
+	Panics    []string      // panics raised by logical threads (recovered so that the run can be judged)
 	dead      bool
 }
 
@@ -152,6 +153,9 @@ func Sleep(d time.Duration) {
 		return
 	}
 	t := s.cur
+	if d > s.MaxSleep {
+		s.MaxSleep = d // the scheduler owns the clock; what the code asked for is all that is left of real time
+	}
 	t.sleeping = true
 	t.Idle++
 	s.yield(t)
